@@ -138,6 +138,7 @@ func partitionCheck(fn *ssa.Function, x ssa.Value) (ok bool, why string, exits i
 func c38(r *core.Run) {
 	w := r.W
 	funcs := w.PkgFuncs("pkg/multicast")
+	goLoopCapture(r, "C38.Y1", "pkg/multicast", 3)
 	// W1 + Z1
 	type mut struct {
 		fn   *ssa.Function
